@@ -26,6 +26,11 @@ CHECKS = {
    text='Proof, per function and for all inputs, of the rows of the GoogleSQL lexical table written as spec functions in the contract files (from the lexical documentation, not from lexer.go): character classes; every punctuation/operator token by maximal munch on its first two bytes; literal prefix matrix (quote, r, b, br, rb in any case; nothing else is a literal prefix); @param / @@ / @; dot followed by digit vs. field dot and the dot-identifier rule; identifier runs are maximal, keywords are exactly the upper-cased members of token.Keywords; illegal first bytes are rejected; the escape table of quoted literals as a per-iteration step contract (plain byte, raw escape pair, one-character escapes with their decoded byte, \\xHH and \\ooo with the decoded value, \\u/\\U only where unicode escapes are allowed and with 4/8 hex digits, every other escape rejected, bare newline only in triple-quoted literals, closing delimiter only at an escape boundary); the number automaton as one transition per iteration plus maximal munch and the "glued identifier" rejection; the four comment openers and their terminators.',
    note='Not proved: the whole-input statement "rejected iff the specification rejects" (needs a recursive reference lexer and induction over tokens); decoded value of \\u/\\U escapes and the surrogate / >10FFFF rejection (strconv.ParseUint and utf8.EncodeRune are trusted with range-only contracts for 4/8 digit input); keyword recognition is proved one way (a keyword kind is the upper-cased spelling of the run and is in token.Keywords), the converse (an identifier is never a keyword spelling) is not. The spec functions (about 40 lines of //@ spec) are the reviewable trusted base. Trusted: token.KeywordsMap == set(token.Keywords literal).',
    ref='§4.C14'),
+ 'C17': dict(
+   text='Per node type (264 obligations): the walkInternal case of *T pushes exactly the exported node-typed fields of T as given by go/types (pointer-to-node-struct, node interface, or slices of those), in reverse declaration order so that the LIFO walk visits them in declaration order, each wrapped by wrapNode/wrapNodes (typed-nil protection) and each labelled with Field(<the name of that same field>); every node struct has a case, there is no default case and no case for a non-node type. A field missing from a case, an extra one, a swapped pair or a wrong Field name falsifies the equality.',
+   note='Claimed for the per-type obligations only. Not yet under contract: walkMain (pop / nil-skip / VisitMany + Index(i) in reverse / prune on nil), Preorder early stop; the global depth-first theorem (each reachable node exactly once, parents first, Field/Index chain = real path) is an induction on tree height over the per-type push lists and the walkMain step, on paper. Exactly-once assumes the AST is a tree.',
+   ref='§4.C17',
+   tech='contract-based deductive verification: per-type verification conditions over ast/walk_internal.go against the field lists from go/types'),
  'C19': dict(
    text='For each of the 264 node structs, proof (z3, all field valuations) that the body of Pos() and of End() in ast/pos.go, evaluated symbolically with the helper functions replaced by their contracts, denotes the same position as the `pos = ...` / `end = ...` expression in the struct\'s documentation (528 obligations), and that the walkInternal case of the type pushes exactly the exported node-typed fields taken from go/types, reversed, wrapped with wrapNode/wrapNodes and labelled Field(<own name>) (264 obligations, plus: no missing case, no default case, no case for a non-node type).',
    note='The position-language semantics in catalog.go is my reading of the EBNF in the ast package comment and is the trusted spec; "equal" means the same valid position or both invalid. Not covered: byte-for-byte agreement with the repository generators and agreement of the reflection-based interpreter tools/util/poslang with the compiled methods (reflection and code generation are outside the subset) - a consistent change of documentation AND generated code is by construction not a C19 violation (it is caught, if wrong, by the parser-side position properties). Engine: AST-level symbolic evaluation of single-return methods (not go/ssa).',
